@@ -48,12 +48,12 @@ func tbl(kv ...any) []any {
 	return l
 }
 
-func pNil() hx.T            { return hx.T{Name: "PNil"} }
-func pSess(d []any) hx.T    { return hx.C("PSess", d) }
-func pMap(d []any) hx.T     { return hx.C("PMap", d) }
-func pStr(n int64) hx.T     { return hx.C("PStr", n) }
-func pOther(k int64) hx.T   { return hx.C("POther", k) }
-func some(x any) hx.T       { return hx.C("Some", x) }
+func pNil() hx.T          { return hx.T{Name: "PNil"} }
+func pSess(d []any) hx.T  { return hx.C("PSess", d) }
+func pMap(d []any) hx.T   { return hx.C("PMap", d) }
+func pStr(n int64) hx.T   { return hx.C("PStr", n) }
+func pOther(k int64) hx.T { return hx.C("POther", k) }
+func some(x any) hx.T     { return hx.C("Some", x) }
 func reg(ty int64, f any) hx.T {
 	if f == nil {
 		return hx.C("OReg", ty, "None")
@@ -61,6 +61,118 @@ func reg(ty int64, f any) hx.T {
 	return hx.C("OReg", ty, some(f))
 }
 func route3(t, g, m int64) []int64 { return []int64{t, g, m} }
+
+var aYield = hx.T{Name: "AYield"}
+
+func aCall(ty int64, p hx.T) hx.T { return hx.C("ACall", ty, p) }
+func aGet(k int64) hx.T           { return hx.C("AGet", k) }
+func spre(s hx.T, acts ...hx.T) hx.T {
+	l := make([]any, len(acts))
+	for i, a := range acts {
+		l[i] = a
+	}
+	return hx.C("SPre", l, s)
+}
+func ocalls(sched []int64, cs ...hx.T) hx.T {
+	l := make([]any, len(cs))
+	for i, c := range cs {
+		l[i] = c
+	}
+	if sched == nil {
+		sched = []int64{}
+	}
+	return hx.C("OCalls", l, sched)
+}
+func cRoute(ty int64, p hx.T) hx.T    { return hx.C("CRoute", ty, p) }
+func cRoutePID(ty int64, p hx.T) hx.T { return hx.C("CRoutePID", ty, p) }
+func cRequest(r []int64, p hx.T) hx.T { return hx.C("CRequest", r, p) }
+func cNotify(r []int64, p hx.T) hx.T  { return hx.C("CNotify", r, p) }
+
+// every parameter kind, two values of the kinds a rule reads
+func kindParams() []hx.T {
+	return []hx.T{
+		pNil(), pSess(data(1, 1)), pSess(data(1, 3, 2, 1)), pMap(data(1, 1)), pMap(data(1, 2, 2, 3)),
+		pMap(data()), pStr(4), pOther(2),
+	}
+}
+
+// E: calls in flight together.  The rule for type 1 stops at a scheduling point BEFORE it
+// reads its key (and reads it twice, around a second scheduling point); the default function
+// does the same for type 2.  Every ordered pair of parameters over all kinds, as
+// Request/Request, Route/Notify and RoutePID/Request, under three schedules; then three and
+// four calls at once with mixed kinds and routes.
+func enumCalls(emit func([]hx.T)) {
+	keyed := hx.C("SKey", 1, tbl(1, rname(1), 2, rname(2), 3, rpanic), rname(4), rname(5))
+	head := func() []hx.T {
+		return []hx.T{v0(),
+			reg(1, spre(keyed, aYield, aGet(1), aYield)),
+			reg(3, spre(hx.C("SKind", rname(1), rname(2), rname(5)), aYield)),
+			hx.C("ODefault", hx.C("DFn", spre(hx.C("SKey", 2, tbl(1, rname(3), 3, rname(5)), rname(0), rname(3)), aGet(2), aYield))),
+		}
+	}
+	ps := kindParams()
+	scheds := [][]int64{{}, {1, 0, 0, 1}, {0, 0, 1, 1, 1, 0}}
+	for _, a := range ps {
+		ops := head()
+		for i, b := range ps {
+			sc := scheds[i%len(scheds)]
+			ops = append(ops,
+				ocalls(sc, cRequest(route3(1, 5, 6), a), cRequest(route3(1, 6, 5), b)),
+				ocalls(scheds[(i+1)%len(scheds)], cRoute(1, a), cNotify(route3(2, 5, 5), b)),
+				ocalls(scheds[(i+2)%len(scheds)], cRoutePID(3, a), cRequest(route3(3, 6, 6), b)))
+		}
+		emit(ops)
+	}
+	for i := 0; i+3 < len(ps)+3; i++ {
+		q := func(k int) hx.T { return ps[(i+k)%len(ps)] }
+		ops := head()
+		ops = append(ops,
+			ocalls([]int64{2, 1, 0}, cRequest(route3(1, 5, 6), q(0)), cNotify(route3(1, 6, 6), q(1)), cRequest(route3(2, 5, 5), q(2))),
+			ocalls([]int64{3, 3, 0, 1, 2, 2, 1, 0}, cRoute(1, q(0)), cRequest(route3(1, 5, 6), q(3)), cRoutePID(2, q(1)), cNotify(route3(3, 5, 6), q(2))),
+			ocalls(nil, cRequest(route3(1, 5, 6), q(3)), cRequest([]int64{1, 5}, q(0)), cRequest(route3(0, 5, 6), q(1)), cRequest(route3(1, 5, 6), q(3))),
+			ocalls(nil, cRequest(route3(1, 5, 6), q(1))))
+		emit(ops)
+	}
+}
+
+// F: rules that route.  The rule for type 1 calls Route(2, q) BEFORE it reads its own key (and
+// reads a key before and after the call); type 2's rule is in turn a plain reader / a kind
+// switch / a panicking function / a rule that routes on to type 3 / absent (default).  Every
+// own parameter x every nested parameter, made alone (old ops and single-call OCalls) and two
+// at a time with scheduling points around the nested call.
+func enumNested(emit func([]hx.T)) {
+	ps := kindParams()
+	inner := []any{
+		hx.C("SKey", 1, tbl(1, rname(3), 2, rname(5)), rname(0), rname(4)),
+		hx.C("SKind", rname(3), rname(5), rpanic),
+		hx.C("SConst", rpanic),
+		spre(hx.C("SKey", 2, tbl(1, rname(5), 3, rname(3)), rname(1), rname(2)), aCall(3, pMap(data(1, 3))), aYield, aCall(3, pStr(2))),
+		nil,
+	}
+	outerLeaf := hx.C("SKey", 1, tbl(1, rname(1), 2, rname(2), 3, rpanic), rname(4), rname(5))
+	for ii, in := range inner {
+		for _, q := range ps {
+			ops := []hx.T{v0(),
+				reg(2, in),
+				reg(3, hx.C("SKey", 1, tbl(3, rname(5)), rname(1), rname(2))),
+				reg(1, spre(outerLeaf, aCall(2, q))),
+				reg(4, spre(outerLeaf, aGet(2), aYield, aCall(2, q), aYield, aGet(2))),
+			}
+			if ii%2 == 1 {
+				ops = append(ops, hx.C("ODefault", hx.C("DFn", spre(hx.C("SConst", rname(3)), aGet(1), aCall(9, pStr(1))))))
+			}
+			for j, a := range ps {
+				ops = append(ops,
+					hx.C("ORequest", route3(1, 5, 6), a),
+					ocalls(nil, cRequest(route3(1, 5, 6), a)),
+					ocalls(nil, cRoute(4, a)),
+					ocalls([]int64{0, 1, 1, 0}, cRequest(route3(4, 5, 6), a), cNotify(route3(4, 6, 5), ps[(j+3)%len(ps)])),
+					ocalls([]int64{1, 0}, cRoutePID(1, a), cRoute(4, ps[(j+1)%len(ps)]), cRequest(route3(2, 5, 6), ps[(j+4)%len(ps)])))
+			}
+			emit(ops)
+		}
+	}
+}
 
 // ---- view facts used for tags ----
 
@@ -295,6 +407,63 @@ func (g *rgen) param() hx.T {
 	}
 }
 
+// scriptFor: a function to be registered for type ty (dflt: as the default function).  Nested
+// calls consult rules only for types ABOVE ty and never from the default function, so rules
+// cannot consult each other in a cycle (in Go: unbounded recursion, a fatal stack overflow).
+func (g *rgen) scriptFor(ty int64, dflt bool) hx.T {
+	s := g.script()
+	if g.r.Intn(3) > 0 {
+		return s
+	}
+	g.tags["gen-rule-with-prefix"] = true
+	var acts []hx.T
+	for n := 1 + g.r.Intn(3); n > 0; n-- {
+		switch g.r.Intn(4) {
+		case 0:
+			acts = append(acts, aYield)
+		case 1:
+			acts = append(acts, aGet(1+g.r.Int63n(2)))
+		default:
+			if dflt || g.r.Intn(4) == 0 {
+				if g.r.Intn(2) == 0 {
+					acts = append(acts, aCall(g.ty(), pStr(g.name())))
+				} else {
+					acts = append(acts, aCall(g.ty(), pOther(g.r.Int63n(8))))
+				}
+			} else {
+				acts = append(acts, aCall(ty+1+g.r.Int63n(2), g.param()))
+			}
+		}
+	}
+	return spre(s, acts...)
+}
+
+func (g *rgen) pcall() hx.T {
+	switch g.r.Intn(6) {
+	case 0:
+		return cRoute(g.ty(), g.param())
+	case 1:
+		return cRoutePID(g.ty(), g.param())
+	case 2:
+		return cNotify(g.route(), g.param())
+	default:
+		return cRequest(g.route(), g.param())
+	}
+}
+
+func (g *rgen) calls() hx.T {
+	n := 1 + g.r.Intn(4)
+	cs := make([]hx.T, n)
+	for i := range cs {
+		cs[i] = g.pcall()
+	}
+	sched := []int64{}
+	for k := g.r.Intn(9); k > 0; k-- {
+		sched = append(sched, g.r.Int63n(4))
+	}
+	return ocalls(sched, cs...)
+}
+
 func (g *rgen) script() hx.T {
 	switch p := g.r.Intn(100); {
 	case p < 35:
@@ -378,14 +547,15 @@ func genRandom(r *rand.Rand, maxLen int) ([]hx.T, map[string]bool) {
 			if r.Intn(6) == 0 {
 				ops = append(ops, reg(g.ty(), nil))
 			} else {
-				ops = append(ops, reg(g.ty(), g.script()))
+				ty := g.ty()
+				ops = append(ops, reg(ty, g.scriptFor(ty, false)))
 			}
 		case p < 28:
 			switch r.Intn(4) {
 			case 0:
 				ops = append(ops, hx.C("ODefault", "DNone"))
 			case 1:
-				ops = append(ops, hx.C("ODefault", hx.C("DFn", g.script())))
+				ops = append(ops, hx.C("ODefault", hx.C("DFn", g.scriptFor(0, true))))
 			default:
 				ops = append(ops, hx.C("ODefault", "DApp"))
 			}
@@ -393,6 +563,8 @@ func genRandom(r *rand.Rand, maxLen int) ([]hx.T, map[string]bool) {
 			ops = append(ops, hx.C("ORoute", g.ty(), g.param()))
 		case p < 44:
 			ops = append(ops, hx.C("ORoutePID", g.ty(), g.param()))
+		case p < 48:
+			ops = append(ops, g.calls())
 		case p < 69:
 			ops = append(ops, hx.C("ORequest", g.route(), g.param()))
 		case p < 81:
@@ -457,6 +629,8 @@ func Run(cfg *hx.Config) error {
 		L = 4
 	}
 	enumUpdates(L, func(ops []hx.T) { emit("exhaustive-updates", ops, nil) })
+	enumCalls(func(ops []hx.T) { emit("exhaustive-calls", ops, nil) })
+	enumNested(func(ops []hx.T) { emit("exhaustive-nested", ops, nil) })
 	for i := 0; i < cfg.N; i++ {
 		maxLen := 14
 		if i%4 == 3 {
